@@ -503,6 +503,8 @@ type WSrc struct {
 	last reflect.Value
 	// pers is the one value object ReportInPlace keeps, rewrites and re-reports
 	pers reflect.Value
+	// buf is the backing array ReportInPlace reuses for the list field
+	buf reflect.Value
 }
 
 // Watch implements dials.Watcher.
@@ -564,6 +566,15 @@ func (s *WSrc) ReportInPlace(ctx context.Context, l *Layer) error {
 	s.last = p
 	s.mu.Unlock()
 	p.Elem().Set(v)
+	// it also keeps its list buffer: same backing array, same length, new contents
+	if lf := p.Elem().FieldByName("L"); lf.IsValid() && lf.Kind() == reflect.Slice && !lf.IsNil() {
+		if s.buf.IsValid() && s.buf.Len() == lf.Len() && s.buf.Type() == lf.Type() {
+			reflect.Copy(s.buf, lf)
+			lf.Set(s.buf)
+		} else {
+			s.buf = reflect.ValueOf(lf.Interface()) // the slice header itself, not the field
+		}
+	}
 	return s.WA().BlockingReportNewValue(ctx, p)
 }
 
